@@ -88,6 +88,18 @@ def impl_eval(job):
             t = f(rec["t"])
             r["J"], r["Z"], r["restore"] = {}, {}, []
             r["param_names"] = sorted(m.get_parameter_dictionary().keys())
+            if rec["variant"] % 2 == 1:
+                # history (SensZj.NextCall): the same model was analysed before at OTHER parameter values, then
+                # re-parameterised to the record's; every judged call must differentiate at the current values
+                want = {k: float(v) for k, v in m.get_parameter_dictionary().items()}
+                try:
+                    m.set_params({k: 1.5 * v + 0.25 for k, v in want.items()})
+                    py_get_jacobian(m, state.copy(), method="central_difference", time=t)
+                    py_get_sensitivity_to_parameter(m, state.copy(), par[0], method="central_difference", time=t)
+                except Exception:  # noqa  (the warm-up point may lie outside a law's domain; it is not judged)
+                    pass
+                m.set_params(want)
+                r["prehistory"] = True
             for sc in rec["sc"]:
                 meth = sc["name"]
                 before = {k: float(v) for k, v in m.get_parameter_dictionary().items()}
@@ -193,8 +205,12 @@ def run(tier):
     seed = common.seed()
     quick = tier == "quick"
     cfg_st = common.make_cfg("sens_stencil", spec="Spec", invariants=["StencilAlgebra", "JetAgrees", "Orders"])
-    cfg_zj = [common.make_cfg("sens_zj%d" % k, spec="Spec", constants={"NPar": "2", "NState": "2", "Method": str(k)},
-                              invariants=["Restored", "RestoredBetweenStates", "EvalPoints", "EvalCount"]) for k in (1, 2, 3, 4)]
+    zj_invs = ["Restored", "RestoredBetweenStates", "EvalPoints", "EvalCount"]
+    cfg_zj = [common.make_cfg("sens_zj%d" % k, spec="Spec", constants={"NPar": "2", "NState": "2", "Method": str(k), "MaxCalls": "2", "Design": '"fresh"'},
+                              invariants=zj_invs) for k in (1, 2, 3, 4)]
+    # deviation: the analysis object (and its parameter snapshot) survives from the first call: must be refuted
+    cfg_zj_dev = common.make_cfg("sens_zj_cached", spec="Spec", constants={"NPar": "2", "NState": "1", "Method": "2", "MaxCalls": "2", "Design": '"cached"'},
+                                 invariants=zj_invs)
     cfg_gen = common.make_cfg("sens_gen", spec="Spec", constants={"NS": "3", "MaxRx": "3", "Mode": '"sim"'},
                               invariants=["ThreeRoutes", "StencilExact", "Emit"])
     cfg_gen2 = common.make_cfg("sens_gen2", spec="Spec", constants={"NS": "2", "MaxRx": "2", "Mode": '"sim"'},
@@ -206,7 +222,10 @@ def run(tier):
         fz = [ex.submit(common.run_tlc, "SensZj", c, workers=1, allow_violation=True, keep_stdout=False) for c in cfg_zj]
         fg = ex.submit(common.run_tlc_many, "SensGen", cfg_gen, nproc, ntr, 10, seed, allow_violation=True)
         fg2 = ex.submit(common.run_tlc_many, "SensGen", cfg_gen2, 2, ntr // 3, 10, seed + 17, allow_violation=True)
-        rs, rz, rg, rg2 = fs.result(), [x.result() for x in fz], fg.result(), fg2.result()
+        fzd = ex.submit(common.run_tlc, "SensZj", cfg_zj_dev, workers=1, allow_violation=True, keep_stdout=False)
+        rs, rz, rg, rg2, rzd = fs.result(), [x.result() for x in fz], fg.result(), fg2.result(), fzd.result()
+    if not rzd.violated:
+        v.violation("spec:vacuous:cached-snapshot", "a parameter snapshot kept across re-parameterisation was not refuted", {"tlc_tail": rzd.stdout[-2000:]})
     for nm, r in [("SensStencil", rs)] + [("SensZj method %d" % (k + 1), x) for k, x in enumerate(rz)] + [("SensGen", rg), ("SensGen(2 species)", rg2)]:
         if r.violated:
             v.violation("spec:%s:%s" % (nm.split()[0], r.violated), "TLC refuted %s on %s" % (r.violated, nm), {"tlc_tail": r.stdout[-3000:]})
